@@ -248,3 +248,13 @@ Example ex_path : find_relationship_path ex_graph "customers" "tags" =
          ("orders", mk "order_tags" ["id"] ["order_id"] "one_to_many", "order_tags");
          ("order_tags", mk "tags" ["tag_id"] ["k1"; "k2"] "many_to_one", "tags") ].
 Proof. vm_compute. reflexivity. Qed.
+
+(* declaring a relationship as many_to_one on the child, or as one_to_many on the parent with the same key, yields the same edges *)
+Theorem side_invariant g a b f : lookup g (g_name a) = Some a -> lookup g (g_name b) = Some b ->
+  let ra := {| r_name := g_name b; r_type := "many_to_one"; r_fk := KStr f; r_pk := KNone; r_through := None; r_tfk := None; r_rfk := None |} in
+  let rb := {| r_name := g_name a; r_type := "one_to_many"; r_fk := KStr f; r_pk := KNone; r_through := None; r_tfk := None; r_rfk := None |} in
+  forall e, In e (rel_edges g a ra) <-> In e (rel_edges g b rb).
+Proof.
+  intros Ha Hb ra rb e. unfold rel_edges. cbn [r_name r_type ra rb]. rewrite Ha, Hb. cbn [String.eqb Ascii.eqb Bool.eqb].
+  unfold fkc, remote_pk. cbn [r_name r_type r_fk r_pk key_truthy]. cbn. tauto.
+Qed.
